@@ -12,6 +12,7 @@
   `CfgB.perSender := false`); witness theorems show what they lose.
 -/
 import YawVerif.Model.Mpi
+import YawVerif.Props.C05
 
 namespace Yaw.C06
 open Yaw.Mpi
@@ -1013,6 +1014,16 @@ theorem writer_correct (sync : Bool) (m chunks : Nat) (hm : 0 < m) (s : StB) (h 
   have h' : ReachB { perSender := true, sync := sync } m chunks s := h
   exact ⟨fun hst => no_loss hm h' hst, fun hns => progressB (invB_reach hm h') hns,
     fun e s' hs => measureB_decreases e hs⟩
+
+/-- MAIN (root result): whatever the interleaving, folding the results the root has yielded into the
+    store they name (pair-count cell, patch dictionary entry, histogram row — C05) gives exactly the
+    store of the sequential run over the task list -/
+theorem root_result_eq_sequential {κ ν : Type} [DecidableEq κ] (sel : Nat → Bool) (n : Nat) (tasks : List Nat)
+    (s : St) (h : Reach (codeCfg sel) n tasks s) (hd : s.pc = .done) (f : Nat → κ × ν)
+    (hc : Yaw.Sched.Consistent (tasks.map f)) (k : κ) :
+    Yaw.Sched.assignFold (s.yielded.map f) k = Yaw.Sched.assignFold (tasks.map f) k := by
+  have hp := (exactly_once (c := codeCfg sel) rfl rfl h hd).1
+  exact (Yaw.C05.fold_perm_invariant (tasks.map f) (s.yielded.map f) (hp.symm.map f) hc k).symm
 
 theorem glue_pinned :
     Gen.pinMpiRoot = "34ea0a19d93a9e9b" ∧ Gen.pinMpiIter = "77c3c3e78f816245" ∧ Gen.pinMpiWriter = "bf54e352b8ac6caa" ∧
